@@ -139,6 +139,7 @@ func c29(r *core.Report, p *core.Prog, thorough bool) {
 		r.Check(covHas(cov, w.key), "C29.coverage", "Block.hash-reads:"+w.key, p.Pos(gh.Pos()), w.what+" must influence the block hash")
 	}
 	r.Info["hash_coverage_fields"] = len(cov)
+	unconditionalSinks(r, p, gh, "C29.coverage", "Block.getHashData")
 	// hash shape
 	okShape := false
 	for _, ret := range core.Returns(ch) {
@@ -384,6 +385,48 @@ func c30(r *core.Report, p *core.Prog, thorough bool) {
 	if len(gid) == 1 {
 		r.Check(core.ErrLeadsToFailure(gid[0]), "C30.client-id", "ComputeClientID:derive-err", p.Pos(gid[0].Pos()), "derivation error rejects")
 	}
+	// every accepting exit is either the verification's own result, or follows the
+	// derivation of the id from the key: no shortcut (cache hit, flag) accepts a pair
+	// (public key, client id) that was not compared
+	if len(vp) == 1 && len(gid) == 1 {
+		okAll := true
+		why := ""
+		for _, ret := range core.Returns(cc) {
+			if core.ClassifyReturn(ret) == core.ExitFailure || ret.Block() == cc.Recover {
+				continue
+			}
+			ei := core.ErrIndex(cc)
+			rv := core.ResultValue(ret, ei)
+			if rv == ssa.Value(vp[0]) {
+				continue
+			}
+			// after an error-checked verification, or after the id was stored from the derivation
+			if callDominates(vp[0], ret) && (core.ErrLeadsToFailure(vp[0]) || errNilAt(vp[0], ret)) {
+				continue
+			}
+			derived := false
+			if callDominates(gid[0], ret) {
+				for _, b := range cc.Blocks {
+					for _, in := range b.Instrs {
+						st, ok := in.(*ssa.Store)
+						if !ok || !callDominates(st, ret) {
+							continue
+						}
+						if fa, ok := st.Addr.(*ssa.FieldAddr); ok && core.FieldOf(fa) != nil && core.FieldOf(fa).Name() == "ClientID" {
+							if c, idx := core.CallOf(st.Val); c == gid[0] && idx == 0 {
+								derived = true
+							}
+						}
+					}
+				}
+			}
+			if !derived {
+				okAll = false
+				why = "accepting exit at " + p.Pos(ret.Pos()) + " follows neither the key/id comparison nor the derivation of the id from the key"
+			}
+		}
+		r.Check(okAll, "C30.client-id", "ComputeClientID:no-unverified-accept", p.Pos(cc.Pos()), "the sender id of an accepted transaction is always bound to its public key; "+why)
+	}
 	_ = types.Typ
 }
 
@@ -398,4 +441,55 @@ func covHas(cov map[string]bool, key string) bool {
 		}
 	}
 	return false
+}
+
+// unconditionalSinks: every piece a hash-data function feeds into its result through a
+// strings.Builder (WriteString / WriteByte / Write…) is fed on every path to the
+// return, except on paths cut by a nil test of a pointer reachable from the receiver
+// (an absent optional part). A piece that is skipped under any other condition — an
+// empty cached value, a flag — leaves contents out of the hash.
+func unconditionalSinks(r *core.Report, p *core.Prog, fn *ssa.Function, rule, name string) {
+	n := 0
+	for _, b := range fn.Blocks {
+		for _, in := range b.Instrs {
+			c, ok := in.(*ssa.Call)
+			if !ok {
+				continue
+			}
+			cn := core.CalleeName(c.Common())
+			if !strings.HasPrefix(cn, "(*strings.Builder).Write") {
+				continue
+			}
+			n++
+			edgeOK := func(from *ssa.BasicBlock, succ int) bool {
+				if !core.FeasibleEdge(from, succ) {
+					return false
+				}
+				ifi, ok := from.Instrs[len(from.Instrs)-1].(*ssa.If)
+				if !ok {
+					return true
+				}
+				if x, isNil, ok := core.NilFact(core.Fact{Cond: ifi.Cond, Taken: succ == 0, If: ifi}); ok && isNil {
+					if rt, pth := core.BaseObject(x); pth != "" && core.ParamOf(rt) == fn.Params[0] {
+						return false // the optional part is absent: nothing to hash
+					}
+				}
+				return true
+			}
+			path, _, found := core.PathQuery{Fn: fn, Barrier: func(x ssa.Instruction) bool { return x == ssa.Instruction(c) }, EdgeOK: edgeOK,
+				Target: func(x ssa.Instruction) bool { _, ok := x.(*ssa.Return); return ok }}.Find()
+			d := ""
+			if found {
+				d = "a return is reachable without it: " + p.PathString(path)
+			}
+			arg := "?"
+			if a := core.CallArgs(c.Common()); len(a) > 0 {
+				arg = describe(a[0])
+			}
+			r.Check(!found, rule, fmt.Sprintf("%s:piece#%d-unconditional", name, n), p.Pos(c.Pos()), "the piece "+arg+" enters the hash data on every path (only the absence of an optional part may skip it); "+d)
+		}
+	}
+	if n == 0 {
+		r.Pass(rule, name+":no-builder-pieces", p.Pos(fn.Pos()), "the hash data is not assembled through a strings.Builder (single expression)")
+	}
 }
